@@ -55,7 +55,16 @@ out='/verif/seeded/%s-%s%s'%(p,os.environ.get('SEED_TAG',''),k)
 meta={}
 mp=os.path.join(out,'meta.json')
 if os.path.exists(mp): meta=json.load(open(mp))
-meta.update({"property":p,"mutation":int(k),
+needs=""
+rp=os.path.join(out,'README.agent.md')
+if os.path.exists(rp):
+    import re
+    txt=open(rp,errors='replace').read()
+    hits=[l.strip() for l in txt.split('\n') if re.search(r'trigger|manifest|needs|only when|only if', l, re.I)]
+    needs=' '.join(hits)[:900]
+meta.update({"property":p,"mutation":int(k),"round":2 if os.environ.get('SEED_TAG') else 1,
+ "needs_to_manifest":needs,
+ "what_was_run":"tools/seedtest.sh: in a scratch worktree - git apply patch.diff; go build ./...; go test ./emitter ./lexer ./parser (existing suite); the demo with and without the patch; then ./check <ids> --tier quick with VERIF_REPO=<worktree at /repo HEAD + patch>",
  "confirmed":{"build_ok":build=="0","existing_suite_passes":suite=="0","demo_fails_with_mutation":mut!="0","demo_passes_without":clean=="0"},
  "checks_run":{x.split('=')[0]:int(x.split('=')[1]) for x in res.split()},
  "detected_by":[x.split('=')[0] for x in res.split() if x.split('=')[1]=="1"]})
